@@ -38,6 +38,8 @@ JOBS = {
     "dec-attr-b": ("decoder", "[C][O].[N]", {"attribute": True}),
     "enc-strict-fail": ("encoder", "C(F)(F)(F)(F)F", {}),
     "enc-attr": ("encoder", "C(=O)N", {"attribute": True}),
+    "enc-oddfused-a": ("encoder", "c12c3ccc1cc2ccc3", {}),            # greedy matching is not perfect: augmentation runs
+    "enc-oddfused-b": ("encoder", "c1cc2ccc3ccc1c23", {}),
     "dec-short-a": ("decoder", "[Ge]", {}),
     "dec-short-b": ("decoder", "[Ge][Ge]", {}),
     "dec-chg-a": ("decoder", "[N+1][C]", {}),
@@ -46,7 +48,8 @@ JOBS = {
 PAIRS = [("dec-Si-a", "dec-Si-b"), ("dec-Si-a", "dec-SiH"), ("dec-ring-a", "dec-ring-b"),
          ("dec-branch-frag", "dec-branch2"), ("enc-ring-Si", "dec-ring-b"), ("enc-pyridine", "enc-pyrrole"),
          ("dec-attr-a", "dec-attr-b"), ("enc-strict-fail", "dec-Si-a"), ("enc-attr", "dec-attr-b"),
-         ("dec-short-a", "dec-short-b"), ("dec-chg-a", "dec-chg-b"), ("dec-Si-a", "dec-Si-a")]
+         ("dec-short-a", "dec-short-b"), ("dec-chg-a", "dec-chg-b"), ("dec-Si-a", "dec-Si-a"),
+         ("enc-oddfused-a", "enc-oddfused-a"), ("enc-oddfused-a", "enc-oddfused-b"), ("enc-pyridine", "enc-pyridine")]
 SHORT = [("dec-short-a", "dec-short-b"), ("dec-chg-a", "dec-chg-b"), ("dec-Si-b", "dec-Si-b")]
 TRIPLES = [("dec-short-a", "dec-short-b", "dec-Si-b"), ("dec-chg-a", "dec-chg-b", "enc-pyrrole")]
 NCHUNK = 8
@@ -139,6 +142,13 @@ def run_one(names, segments, r, tail=None, scope=""):
     r.evaluations += 1
     r.transitions += len(trace) + 1
     want = [_SERIAL[n] for n in names]
+    if any(isinstance(x, tuple) and x and x[0] == "hang" for x in res):
+        bad = [i for i, x in enumerate(res) if isinstance(x, tuple) and x and x[0] == "hang"][0]
+        r.violation("hang-under-schedule:" + JOBS[names[bad]][0],
+                    {"jobs": list(names), "segments": [list(s) for s in segments], "tail": list(tail) if tail else None,
+                     "granularity": S._INSTALLED[0]},
+                    "thread %d (%s %r) did not terminate under this schedule" % (bad, JOBS[names[bad]][0], JOBS[names[bad]][1]))
+        return res, steps
     if list(res) != want:
         # reproduce twice
         again = [S.execute([make_job(n) for n in names], segments, H.restore, tail) for _ in range(2)]
